@@ -463,6 +463,36 @@ Fixpoint run_agg_rest (t : table) (rest : list aggop) : res table :=
       run_agg_rest t' rest'
   end.
 
+(** how many rows an operator fails on: the `error:` lines of an adapter that follows a mere sort (fix 64df92c:
+    a row dropped after a sort alone is reported like anywhere before an aggregation) *)
+Fixpoint count_errs (o : opstate) (rows : list record) : nat :=
+  match rows with
+  | [] => O
+  | r :: rest =>
+      let '(o', out) := op_step o r in
+      match out with
+      | Err => S (count_errs o' rest)
+      | Ok _ => count_errs o' rest
+      | Panic | Unm => O
+      end
+  end.
+
+Definition adapter_errs (st : stage) (t : table) : nat :=
+  count_errs (build_op st) (map (fun d => mkRec d []) (t_rows t)).
+
+(** the adapters report until the first real aggregation; after it rows are dropped silently *)
+Fixpoint post_errs (t : table) (rest : list aggop) : nat :=
+  match rest with
+  | [] => O
+  | AGroup _ :: _ => O
+  | a :: rest' =>
+      (match a with AAdapter st _ => adapter_errs st t | _ => O end) +
+      match agg_process_table a t with
+      | Ok a' => match agg_emit a' with Ok t' => post_errs t' rest' | _ => O end
+      | _ => O
+      end
+  end.
+
 (** the line without its terminator: what the filter looks at (fix 0a8f710) *)
 Definition chomp (l : str) : str :=
   match rev l with
@@ -483,11 +513,15 @@ Definition run_pipeline (filter_ok : str -> bool) (stages : list stage) (lines :
       | [] => mkRun (Ok (ORows sent)) (p_err st)
       | head :: rest =>
           if existsb (fun r => any_unm_row head (rdata r)) sent then mkRun Unm (p_err st) else
+          let hd := fold_left (fun ra r => do a <- ra; agg_process_record a (rdata r)) sent (Ok head) in
           let r :=
-            do head' <- fold_left (fun ra r => do a <- ra; agg_process_record a (rdata r))
-                                  sent (Ok head);
+            do head' <- hd;
             do t <- agg_emit head';
             do t' <- run_agg_rest t rest;
             Ok (OTable t') in
-          mkRun r (p_err st)
+          let perr := match head, hd with
+                      | ASorter _, Ok head' => match agg_emit head' with Ok t => post_errs t rest | _ => O end
+                      | _, _ => O
+                      end in
+          mkRun r (p_err st + perr)
       end.
